@@ -592,12 +592,14 @@ def check_C19(sc, v, tier, seed, replay):
         for pi, (kind, at) in enumerate(pts):
             gs = [[]]
             if kind == "garbage":
-                gs = [classes[0], classes[1 + pi % 2 * 3]] if (tier == "quick" or si == 0) else [classes[pi % len(classes)]]
-                gs.append(classes[2 + pi % 4]) if tier == "quick" and pi % 3 == 0 else None
+                # every consumed answer: all-ones, a truncated well-started PDU, and more octets than the read buffer holds (a reader
+                # that waits for "the rest" of an oversized message hangs); the single octet / random classes rotate
+                gs = [classes[0], classes[1 + pi % 2 * 3], classes[5]] if (tier == "quick" or si == 0) else [classes[pi % len(classes)]]
+                gs.append(classes[2 + pi % 2]) if tier == "quick" and pi % 3 == 0 else None
             for gi, g in enumerate(gs):
                 scn, text = online.make_scenario(random.Random(seed * 7 + si), counts, opts={"det": si},
                                                  fault={"kind": kind, "at": at, "bytes": g})
-                jobs.append(("f%d-%s%02d%s" % (si, kind, at, "abc"[gi] if kind == "garbage" else ""), scn, text))
+                jobs.append(("f%d-%s%02d%s" % (si, kind, at, "abcd"[gi] if kind == "garbage" else ""), scn, text))
     runs = online.run_many(sc, emu, jobs, parallel=16, timeout=900)
     for r in runs:
         for rj in r["tlc"].rejects:
